@@ -19,6 +19,9 @@ use std::{
 use crate::runs::ExploreOpts;
 use crate::scenario::Scenario;
 
+/// A `build()` was given up by the watchdog: a runaway thread is left behind, so the harness writes what it has and stops.
+pub static ABANDON: std::sync::atomic::AtomicBool = std::sync::atomic::AtomicBool::new(false);
+
 pub struct Out {
     traces: BufWriter<File>,
     scns: Option<BufWriter<File>>,
@@ -80,6 +83,14 @@ impl Out {
             writeln!(s, "{}", serde_json::to_string(scn).unwrap()).unwrap();
         }
         self.emitted += 1;
+        if ABANDON.load(std::sync::atomic::Ordering::SeqCst) {
+            self.traces.flush().unwrap();
+            if let Some(s) = self.scns.as_mut() {
+                s.flush().unwrap();
+            }
+            eprintln!("{{\"emitted\":{},\"dups\":{},\"events\":{}}}", self.emitted, self.dups, self.events);
+            std::process::exit(0);
+        }
     }
 }
 
